@@ -10,6 +10,8 @@ BL = [3, 2]
 BR = [[2], []]
 UNITS = [40, 64, 100, 127]
 
+from ..simdev import FaithfulBlockPolicy
+
 
 def run(ctx):
     res = core.Result()
@@ -76,9 +78,30 @@ def run(ctx):
         traces.append(t)
         info[t["id"]] = dict(meta, src="random", advance=advance, brothers=bro, faulty=faulty)
     res.coverage["random_requests"] = n_rand
+    # chains: the next request repeats a block of the previous one with *other* brothers (or none), or the same
+    # brothers for another block - what the host remembers about a block is not what the device must be handed
+    n_chain = ctx.pick(40, 1200)
+    for i in range(n_chain):
+        bl = reqs.blocks(ctx.rng, 2, True, bro_counts=[ctx.rng.choice([1, 2, 3]), ctx.rng.choice([0, 1, 2])])
+        for link in range(3):
+            if link > 0:
+                other = reqs.blocks(ctx.rng, 2, True, bro_counts=[ctx.rng.choice([0, 1, 2, 3]), ctx.rng.choice([0, 2])])
+                how = ctx.rng.choice(["swap_brothers", "other_brothers", "shift"])
+                if how == "swap_brothers":
+                    bl = [dict(bl[0], brothers=bl[1]["brothers"]), dict(bl[1], brothers=bl[0]["brothers"])]
+                elif how == "other_brothers":
+                    bl = [dict(bl[0], brothers=other[0]["brothers"]), dict(bl[1], brothers=other[1]["brothers"])]
+                else:
+                    bl = [dict(bl[1], brothers=other[0]["brothers"]), other[1]]
+            stop = ctx.rng.choice([None, (1, "partial"), (1, "success")])
+            pol = FaithfulBlockPolicy(stop_after=stop)
+            t, meta = bench.run(bl, True, pol, ctx.rng, coop=True)
+            t["id"] = len(traces) + 1
+            traces.append(t)
+            info[t["id"]] = dict(meta, src="chain", advance=True, link=link)
+    res.coverage["chained_requests"] = n_chain * 3
     # headers sized at the boundaries where the encodings change form
     n_bound = 0
-    from ..simdev import FaithfulBlockPolicy
     targets = blockx.BOUNDARY_LENGTHS + (blockx.BOUNDARY_LENGTHS_BIG if not ctx.quick else blockx.BOUNDARY_LENGTHS_BIG[-1:])
     for what in sorted(blockx.MEASURES):
         for target in targets:
